@@ -266,6 +266,10 @@ def main(argv=None):
         for cn in r['canaries']:
             if cn['result'] == 'SURVIVED':
                 unsound.append((fn_label, cn['edit']))
+            elif cn['result'] != 'killed':
+                # neither killed nor survived: the mutated text is gone from the tree, or the mutant left the engine's
+                # reach -- no evidence either way, said aloud (one such canary sat silent in C17 for most of the build)
+                print(f'CANARY-IDLE property={pid} {fn_label}: {cn["result"]} {cn.get("note") or ""}'[:260])
     # ------------------------------------------------------------------ bounded stand-ins
     bounded_out = []
     for (bpid, name), fn in sorted(BOUNDED.items()):
@@ -345,7 +349,7 @@ def main(argv=None):
         'solver_ms': round(solver_ms, 1),
         'functions_under_contract': functions,
         'samples': samples or [b.get('samples', [None])[0] for b in bounded_out][:3],
-        'canaries': {'run': sum(len(f['canaries']) for f in functions), 'killed': sum(1 for f in functions for cn in f['canaries'] if cn['result'] == 'killed')},
+        'canaries': {'run': sum(len(f['canaries']) for f in functions), 'killed': sum(1 for f in functions for cn in f['canaries'] if cn['result'] == 'killed'), 'idle': sum(1 for f in functions for cn in f['canaries'] if cn['result'] not in ('killed', 'SURVIVED'))},
         'undecided': [f'{a_}: {b_}' for a_, b_ in undecided],
         'known_findings_reported': sorted(set(known_lines)),
     }
